@@ -6,8 +6,6 @@ package main
 
 import (
 	"fmt"
-	"os"
-	"runtime/pprof"
 	"math/big"
 	"strings"
 
@@ -254,11 +252,6 @@ func truncations(g *valgen.Gen, b []byte) [][]byte {
 
 func main() {
 	mode, tier, path := vh.Args()
-	if pf := os.Getenv("SVAL_PROF"); pf != "" {
-		f, _ := os.Create(pf)
-		pprof.StartCPUProfile(f)
-		defer pprof.StopCPUProfile()
-	}
 	if mode == "replay" {
 		for _, l := range vh.ReadLines(path) {
 			fmt.Println(exec(l))
